@@ -2,6 +2,7 @@
 from vf import gen, ref
 from vf.core import call, exc_desc
 from vf.lazy import ck, libx, common
+from vf.monitors import algos
 
 PROP = "C01"
 TECHNIQUE = ('icontract postcondition on the real get_kemeny_score (direct and internal calls) judged online against an exact pairwise-definition oracle; refusal path checked at the call boundary; size sweep (63-1025 elements) against a vectorised reference; rankings holding empty buckets')
@@ -130,6 +131,27 @@ def check_case(case, ctx):
     if st2 == "exc" or not common.close(val2, expected, exact):
         ctx.violation("C01/consensus-on-demand-score-differs", "Consensus.kemeny_score (computed on demand) differs",
                       case, observed=val2 if st2 == "ok" else exc_desc(val2), expected=expected)
+    # on-demand score of the consensuses that shared algorithm objects return (one object per configuration for the whole
+    # shard): algorithms that supply no score of their own leave it to Consensus.kemeny_score
+    if len(ref.universe(ds)) <= 7:
+        for cfg in ("Exact", "Copeland", "KwikSort", "Pulp")[: 2 + (gen.digest(ds)[0] in "01234567")]:
+            stc, cons, _ = algos.run_config(cfg, dataset, scheme, True, 0)
+            if stc != "ok":
+                continue
+            st3, val3 = call(lambda c=cons: c.kemeny_score)
+            try:
+                r0 = libx.raw_ranking(cons.consensus_rankings[0])
+            except Exception:      # pylint: disable=broad-except
+                continue
+            if not common.wellformed_raw(r0, ref.universe(ds)):
+                continue
+            want3 = ref.kemeny(r0, ds, sch)
+            ctx.count("on_demand_scores_of_algorithm_outputs")
+            if st3 == "exc" or not common.close(val3, want3, exact, 1e-6):
+                ctx.violation("C01/consensus-on-demand-score-differs:algorithm-output", f"{cfg} (shared object): kemeny_score "
+                              f"of the returned consensus {r0} is {exc_desc(val3) if st3 == 'exc' else val3}, the definition "
+                              f"gives {float(want3)}", {**case, "config": cfg}, observed=repr(val3), expected=want3)
+                break
     # reach bookkeeping: cells with a non-zero penalty
     B, T = sch
     nz = 0
@@ -193,6 +215,9 @@ def reach(counters, tier, info):
     v = counters.get("scored_again_after_in_place_removal", 0)
     out.append({"name": "candidates scored by the same factory after an in-place removal", "observed": v, "required": 300,
                 "ok": v >= 300 or tier != "quick" and v >= 300})
+    v = counters.get("on_demand_scores_of_algorithm_outputs", 0)
+    out.append({"name": "on-demand scores of consensuses returned by shared algorithm objects", "observed": v, "required": 1500,
+                "ok": v >= 1500})
     v = counters.get("large_candidates_scored", 0)
     out.append({"name": "candidates over 63-1025 elements scored (vectorised reference)", "observed": v, "required": 40,
                 "ok": v >= 40})
